@@ -254,8 +254,16 @@ func (c *Ctx) sortOf(t types.Type) Sort {
 func (c *Ctx) structName(named *types.Named, st *types.Struct) string {
 	if named != nil {
 		n := "S_" + c.typeName(named)
-		// two different packages may share a package name (sync vs internal/sync): disambiguate by path
 		full := types.TypeString(named, nil)
+		if c.prog != nil && st != nil && st.NumFields() > 0 {
+			// a type declared as another struct type (`type B A`, also for instantiations A[K, V]) is that struct
+			if canon, ok := c.prog.StructCanon[st.Field(0).Pos()]; ok && onlyTypeParamArgs(named) {
+				n = "S_" + sanitize(canon)
+				dp := c.prog.Fset.Position(st.Field(0).Pos())
+				full = fmt.Sprintf("declared at %s:%d: %s", dp.Filename, dp.Line, canon)
+			}
+		}
+		// two different packages may share a package name (sync vs internal/sync): disambiguate by path
 		if prev, ok := c.structFull[n]; ok && prev != full {
 			n += fmt.Sprintf("_%x", hashString(full))
 		} else if c.structFull != nil {
@@ -264,6 +272,17 @@ func (c *Ctx) structName(named *types.Named, st *types.Struct) string {
 		return n
 	}
 	return "S_anon_" + fmt.Sprintf("%x", hashString(types.TypeString(st, c.qual)))
+}
+
+// onlyTypeParamArgs: the named type is not instantiated with concrete types (whose struct would differ in sorts).
+func onlyTypeParamArgs(n *types.Named) bool {
+	ta := n.TypeArgs()
+	for i := 0; i < ta.Len(); i++ {
+		if _, ok := types.Unalias(ta.At(i)).(*types.TypeParam); !ok {
+			return false
+		}
+	}
+	return true
 }
 
 // fieldName: SMT-safe name of a struct field; blank fields ("_") are made unique by their source position.
